@@ -116,4 +116,12 @@ TEXTS["C19"] = dict(
                "Untrusted callers must obtain no response message and change nothing; trusted callers are served strictly by the subject name of their verified certificate.",
     level_note="No schedule, clock or fault sequence is involved in this property: the simulation technique contributes the hostile peers and the in-process real edge, not interleavings (DESIGN.md section 8). "
                "Trusted: Go crypto/tls and x509, gRPC. Certificates: the repository's testing authority plus authorities generated at run time (one placed in the host trust store via SSL_CERT_FILE).")
+TEXTS["C20"] = dict(
+    technique="structure-aware seeded request generation through the protobuf wire encoding against real handlers in an isolated worker process, with liveness canary and write-ahead replay",
+    level_text="Seeded structure-aware generation of requests for every RPC of the four client-facing services and of key-generation messages from non-peers (boundary byte lengths, absent "
+               "fields, extreme integers, empty / huge / nil-containing batches, malformed names), passed through a protobuf wire round trip and handed to the real handlers of an instance "
+               "hosted by the worker process, each followed by a canary request from another client. A panic on the handler goroutine is recorded in-process; a panic on any other goroutine "
+               "kills the worker, which the driver attributes to the seed written ahead of the run and confirms by replaying it in a fresh process.",
+    level_note="An input-space property: no schedule is explored; the technique contributes process isolation, the canary and exact replay (DESIGN.md section 8). peers.Suitable is re-implemented, so "
+               "its allocation of one slot per requested participant is not exercised. Resource exhaustion is reported only if the process dies in this sandbox.")
 NOT_APPLICABLE = {}
